@@ -297,16 +297,29 @@ func init() {
 
 	// ---------- sync ----------
 	for _, n := range []string{"(*sync.Mutex).Lock", "(*sync.RWMutex).Lock"} {
-		reg(n, func(in *Interp, c *Frame, fn *ssa.Function, a []Value) Value { in.muLock(a[0]); return nil })
+		reg(n, func(in *Interp, c *Frame, fn *ssa.Function, a []Value) Value {
+			in.yieldPoint("Lock")
+			in.muLock(a[0])
+			return nil
+		})
 	}
 	for _, n := range []string{"(*sync.Mutex).Unlock", "(*sync.RWMutex).Unlock"} {
-		reg(n, func(in *Interp, c *Frame, fn *ssa.Function, a []Value) Value { in.mu(a[0]).w = false; return nil })
+		reg(n, func(in *Interp, c *Frame, fn *ssa.Function, a []Value) Value {
+			in.mu(a[0]).w = false
+			in.yieldPoint("Unlock")
+			return nil
+		})
 	}
-	reg("(*sync.RWMutex).RLock", func(in *Interp, c *Frame, fn *ssa.Function, a []Value) Value { in.muRLock(a[0]); return nil })
+	reg("(*sync.RWMutex).RLock", func(in *Interp, c *Frame, fn *ssa.Function, a []Value) Value {
+		in.yieldPoint("RLock")
+		in.muRLock(a[0])
+		return nil
+	})
 	reg("(*sync.RWMutex).RUnlock", func(in *Interp, c *Frame, fn *ssa.Function, a []Value) Value {
 		if m := in.mu(a[0]); m.r > 0 {
 			m.r--
 		}
+		in.yieldPoint("RUnlock")
 		return nil
 	})
 	reg("(*sync.WaitGroup).Add", func(in *Interp, c *Frame, fn *ssa.Function, a []Value) Value {
@@ -359,21 +372,25 @@ func init() {
 	reg("runtime.GOMAXPROCS", func(in *Interp, c *Frame, fn *ssa.Function, a []Value) Value { return in.st.Const(64, 1) })
 	reg("runtime.NumCPU", func(in *Interp, c *Frame, fn *ssa.Function, a []Value) Value { return in.st.Const(64, 1) })
 
-	// ---------- sync/atomic (single-threaded semantics) ----------
+	// ---------- sync/atomic (sequentially consistent; each operation is a preemption point under vx.Preemptions) ----------
 	for _, ty := range []string{"Int32", "Int64", "Uint32", "Uint64", "Uintptr", "Pointer"} {
 		reg("sync/atomic.Load"+ty, func(in *Interp, c *Frame, fn *ssa.Function, a []Value) Value {
+			in.yieldPoint("atomic")
 			return in.load(a[0].(Ptr))
 		})
 		reg("sync/atomic.Store"+ty, func(in *Interp, c *Frame, fn *ssa.Function, a []Value) Value {
+			in.yieldPoint("atomic")
 			in.store(a[0].(Ptr), a[1])
 			return nil
 		})
 		reg("sync/atomic.Swap"+ty, func(in *Interp, c *Frame, fn *ssa.Function, a []Value) Value {
+			in.yieldPoint("atomic")
 			old := in.load(a[0].(Ptr))
 			in.store(a[0].(Ptr), a[1])
 			return old
 		})
 		reg("sync/atomic.CompareAndSwap"+ty, func(in *Interp, c *Frame, fn *ssa.Function, a []Value) Value {
+			in.yieldPoint("atomic")
 			cur := in.load(a[0].(Ptr))
 			if in.branch(in.eq(cur, a[1])) {
 				in.store(a[0].(Ptr), a[2])
@@ -383,17 +400,20 @@ func init() {
 		})
 		if ty != "Pointer" {
 			reg("sync/atomic.Add"+ty, func(in *Interp, c *Frame, fn *ssa.Function, a []Value) Value {
+			in.yieldPoint("atomic")
 				cur := in.load(a[0].(Ptr)).(*Term)
 				nv := in.st.Bin(OpAdd, cur, a[1].(*Term))
 				in.store(a[0].(Ptr), nv)
 				return nv
 			})
 			reg("sync/atomic.And"+ty, func(in *Interp, c *Frame, fn *ssa.Function, a []Value) Value {
+			in.yieldPoint("atomic")
 				cur := in.load(a[0].(Ptr)).(*Term)
 				in.store(a[0].(Ptr), in.st.Bin(OpAnd, cur, a[1].(*Term)))
 				return cur
 			})
 			reg("sync/atomic.Or"+ty, func(in *Interp, c *Frame, fn *ssa.Function, a []Value) Value {
+			in.yieldPoint("atomic")
 				cur := in.load(a[0].(Ptr)).(*Term)
 				in.store(a[0].(Ptr), in.st.Bin(OpOr, cur, a[1].(*Term)))
 				return cur
@@ -401,13 +421,16 @@ func init() {
 		}
 	}
 	reg("(*sync/atomic.Value).Load", func(in *Interp, c *Frame, fn *ssa.Function, a []Value) Value {
+			in.yieldPoint("atomic")
 		return in.load(a[0].(Ptr).field(0))
 	})
 	reg("(*sync/atomic.Value).Store", func(in *Interp, c *Frame, fn *ssa.Function, a []Value) Value {
+			in.yieldPoint("atomic")
 		in.store(a[0].(Ptr).field(0), a[1])
 		return nil
 	})
 	reg("(*sync/atomic.Value).Swap", func(in *Interp, c *Frame, fn *ssa.Function, a []Value) Value {
+			in.yieldPoint("atomic")
 		old := in.load(a[0].(Ptr).field(0))
 		in.store(a[0].(Ptr).field(0), a[1])
 		return old
